@@ -625,9 +625,51 @@ func genSmallStructs(g *G, count int) {
 	}
 }
 
+// genSteeredLengths: "length-field steering". A declared length inside a composite structure is set so that the
+// region it announces ends exactly k bytes before the end of a buffer of a chosen total size (k = 0…12): the
+// embedded identity's certificate length (offset 385) and the options size of LeaseSet2 / MetaLeaseSet /
+// RouterInfo. This is where a size guard that looks at the wrong variable (whole input instead of remainder)
+// stops protecting the fixed-width header reads that follow.
+func genSteeredLengths(g *G) {
+	r := g.R
+	totals := []int{391, 395, 403, 475, 499, 505, 506, 600}
+	if !g.quick() {
+		totals = append(totals, 392, 399, 401, 411, 435, 467, 498, 500, 504, 507, 523, 1024, 4096)
+	}
+	g.in("steer-cert-length")
+	for _, op := range []string{"readLS2", "readMeta", "readLS", "readRI", "readDest", "readRid", "readKac"} {
+		for _, L := range totals {
+			for k := 0; k <= 12; k++ {
+				plen := L - 387 - k
+				if plen < 4 {
+					continue
+				}
+				id := g.newIdentity(7, r.pick(4, 0), false, nil)
+				b := cat(id.bytes[:384], []byte{5}, u16(plen), id.bytes[387:391], r.bytes(plen-4), r.bytes(k))
+				g.emit(op, hx(b))
+			}
+		}
+	}
+	g.in("steer-options-size")
+	for _, L := range totals {
+		for k := 0; k <= 12; k++ {
+			id := g.newIdentity(7, 4, false, nil)
+			if n := L - len(id.bytes) - 10 - k; n >= 0 {
+				hdr := cat(id.bytes, u32(g.ts()), u16(600), u16(0), u16(n))
+				g.emit("readLS2", hx(cat(hdr, r.bytes(n+k))))
+				g.emit("readMeta", hx(cat(hdr, r.bytes(n+k))))
+			}
+			if n := L - len(id.bytes) - 12 - k; n >= 0 {
+				g.emit("readRI", hx(cat(id.bytes, u64(uint64(g.ts())*1000), []byte{0, 0}, u16(n), r.bytes(n+k))))
+			}
+		}
+	}
+}
+
 func init() {
 	suites["STRUCT"] = func(g *G) {
 		genSmallStructs(g, g.n(300, 8000))
 		genSignedStructs(g, g.n(100, 1500))
+		genSteeredLengths(g)
 	}
 }
